@@ -167,7 +167,7 @@ def harnesses(tier, seed):
                         ctx.note("boundary_ambiguous")
                     ctx.outcome(sig[:3])
 
-    return [{"name": "long-series", "body": long_body,
+    return [W.every_n_harness("C06", PREFIX, quick), W.derived_threshold_harness("C06", PREFIX, quick), {"name": "long-series", "body": long_body,
              "bound_text": "every length 3..%d, 2^k+1 and around every integer constant of the code up to %d" % (40 if quick else 72, lsizes[-1])},
             {"name": "per-sample-reference", "body": body}, {"name": "exact-reference-slice", "body": exact_body},
             {"name": "shape-functions", "body": shape_body}]
